@@ -68,10 +68,16 @@ func buildSet(rep []sidEntry) replication.Mysql56GTIDSet {
 	}
 	set, err := replication.NewMysql56GTIDSetFromSIDBlock(sidBlock(sids, ivs))
 	if err != nil {
-		panic(err)
+		// the library refused the binary form of a canonical set: recorded by the caller, never a harness crash
+		buildErr = err.Error()
+		return replication.Mysql56GTIDSet{}
 	}
+	buildErr = ""
 	return set
 }
+
+// buildErr is the error (if any) of the last buildSet call.
+var buildErr string
 
 // repFromMask: members of sid u are the set bits of mask (bit k = sequence number k+1)
 func repFromMasks(masks []int, w int) []sidEntry {
@@ -242,7 +248,7 @@ func addCase(e *Env, cls string, rep []sidEntry, set replication.Mysql56GTIDSet,
 	has := set.ContainsGTID(g)
 	r := set.AddGTID(g)
 	emitCase(e, M{"fn": "gs56.add", "cls": cls, "rep": repJ(rep), "sid": B(g.Server[:]), "n": g.Sequence,
-		"obs": M{"text": B(r.String()), "recvText": B(set.String()), "recvSame": before == set.String() && bytes.Equal(beforeBlock, set.SIDBlock()),
+		"obs": M{"buildErr": buildErr, "text": B(r.String()), "recvText": B(set.String()), "recvSame": before == set.String() && bytes.Equal(beforeBlock, set.SIDBlock()),
 			"had": has, "has": r.ContainsGTID(g), "flavor": r.Flavor()}})
 }
 
@@ -375,9 +381,23 @@ func modeC19(e *Env) {
 			}
 		}
 		rep = rr
+		if len(rep) > 0 && i%4 == 1 {
+			// the top of the sequence-number range: the last interval of some server ends at (or is) 2^63-1
+			en := &rep[e.R.Intn(len(rep))]
+			last := &en.Ivs[len(en.Ivs)-1]
+			if e.R.Intn(2) == 0 {
+				last.E = 1<<63 - 1
+			} else {
+				en.Ivs = append(en.Ivs, ivl{1<<63 - 1 - int64(e.R.Intn(2)), 1<<63 - 1})
+				if en.Ivs[len(en.Ivs)-2].E >= en.Ivs[len(en.Ivs)-1].S-1 {
+					en.Ivs = en.Ivs[:len(en.Ivs)-1]
+					en.Ivs[len(en.Ivs)-1].E = 1<<63 - 1
+				}
+			}
+		}
 		set := buildSet(rep)
 		t1 := set.String()
-		o := M{"text": B(t1), "flavor": set.Flavor()}
+		o := M{"text": B(t1), "flavor": set.Flavor(), "buildErr": buildErr}
 		p, err := replication.VfParseGTIDSet("MySQL56", t1)
 		if err != nil || p == nil {
 			o["parseErr"], o["text2"], o["eq"] = true, B(nil), false
